@@ -17,6 +17,7 @@ import json
 import os
 import random
 
+import c05_include
 import idl
 import vlib
 
@@ -647,7 +648,10 @@ def run(ctx, args):
         if text is None:
             with open(args.replay) as fh:
                 text = fh.read()
-        return replay(ctx, harness, json.loads(text))
+        rp = json.loads(text)
+        if rp.get("class", {}).get("check") == "C05.include":
+            return c05_include.replay(ctx, harness, rp)
+        return replay(ctx, harness, rp)
     # which getEnum does the code under test have?  (layer B transcribes either; verdicts never depend on B)
     probe = run_harness(ctx, harness, [{"id": 0, "main": "m.thrift", "files": {
         "m.thrift": 'include "a.thrift"\ntypedef a.E LE\nconst LE K = LE.V1\n', "a.thrift": "enum E {\nV1,\nV2,\n}\n"}}], "probe")[0]
@@ -670,6 +674,10 @@ def run(ctx, args):
         evaluate(ctx, harness, cases, "u%d" % k, stats, 0.05 if ctx.tier == "quick" else 0.03)
         del cases
     vacuity(seen_for_vacuity)
+    # include binding: which file an include text denotes (spec/Include), upstream of every cross-file reference
+    n_inc = c05_include.phase(ctx, harness, 2500 if ctx.tier == "quick" else 40000)
+    ctx.notes.append("include phase: %d directory-tree cases, layer B (parseFileRecursively/searchCircle) => layer A checked "
+                     "by TLC on each, real ParseFile/ParseBatchString/CircleDetect judged by Include.tla ObsOK" % n_inc)
     ex = stats.pop("examples", {})
     ctx.extra_cov["c05"] = {k: v for k, v in stats.items()}
     ctx.notes.append("sub-check accepts (programs layer A accepts, every name denoting exactly one definition, that the real "
